@@ -30,22 +30,22 @@ type Op struct {
 
 // Result is what one assembly was observed to do.
 type Result struct {
-	Out       []byte           `json:"out"`
-	OutExists bool             `json:"out_exists"`
-	Diag      string           `json:"diag"`   // log output (stderr of the CLI)
-	Stdout    string           `json:"stdout"` // "GOSK : ..." messages etc.
-	Panic     string           `json:"panic"`
-	ParseErr  string           `json:"parse_err"`
-	LOC       int32            `json:"loc"`
-	Dollar    uint32           `json:"dollar"`
-	Sym       map[string]int32 `json:"sym"`
-	Format    string           `json:"format"`
-	Digest    string           `json:"digest"`
-	TreeBefore string          `json:"tree_before"`
-	TreeAfter  string          `json:"tree_after"`
-	Micros    int64            `json:"us"`
+	Out        []byte           `json:"out"`
+	OutExists  bool             `json:"out_exists"`
+	Diag       string           `json:"diag"`   // log output (stderr of the CLI)
+	Stdout     string           `json:"stdout"` // "GOSK : ..." messages etc.
+	Panic      string           `json:"panic"`
+	ParseErr   string           `json:"parse_err"`
+	LOC        int32            `json:"loc"`
+	Dollar     uint32           `json:"dollar"`
+	Sym        map[string]int32 `json:"sym"`
+	Format     string           `json:"format"`
+	Digest     string           `json:"digest"`
+	TreeBefore string           `json:"tree_before"`
+	TreeAfter  string           `json:"tree_after"`
+	Micros     int64            `json:"us"`
 	// filled by the engine
-	Died     bool   `json:"died,omitempty"`     // worker process ended while executing (os.Exit, fatal error)
+	Died     bool   `json:"died,omitempty"`      // worker process ended while executing (os.Exit, fatal error)
 	ExitCode int    `json:"exit_code,omitempty"` // exit status of the real CLI when Died or ViaCLI
 	Timeout  bool   `json:"timeout,omitempty"`
 	ViaCLI   bool   `json:"via_cli,omitempty"`
@@ -85,15 +85,17 @@ type Pool struct {
 	N         int
 	OpTimeout time.Duration
 
-	slots chan *proc
-	memo  sync.Map // src -> *memoEntry
-	seq   atomic.Int64
+	slots     chan *proc
+	memo      sync.Map // src -> *memoEntry
+	freshMemo sync.Map // src -> *memoEntry (ExecFresh)
+	seq       atomic.Int64
 
 	Execs      atomic.Int64 // assemblies executed on workers
 	Deaths     atomic.Int64
 	CLIRuns    atomic.Int64
 	MemoHits   atomic.Int64
 	FreshProcs atomic.Int64
+	FreshRuns  atomic.Int64 // reference programs assembled as the only assembly of a fresh process
 }
 
 type memoEntry struct {
@@ -192,6 +194,30 @@ func (p *Pool) Exec(src string) *Result {
 	e.once.Do(func() {
 		hit = false
 		e.res = p.execNoMemo(src)
+	})
+	if hit {
+		p.MemoHits.Add(1)
+	}
+	return e.res
+}
+
+// ExecFresh assembles src as the only assembly of a fresh worker process (memoised per source text, separately
+// from Exec). If the process dies, the observation comes from the real CLI, as for Exec.
+func (p *Pool) ExecFresh(src string) *Result {
+	v, _ := p.freshMemo.LoadOrStore(src, &memoEntry{})
+	e := v.(*memoEntry)
+	hit := true
+	e.once.Do(func() {
+		hit = false
+		p.FreshRuns.Add(1)
+		out, died := p.History([]Op{{Src: []byte(src)}})
+		if died || len(out) == 0 {
+			r := p.CLI(src, nil, false)
+			r.Died = true
+			e.res = r
+			return
+		}
+		e.res = &out[0]
 	})
 	if hit {
 		p.MemoHits.Add(1)
